@@ -1321,6 +1321,9 @@ class Exec:
             outer = ast.With(items=s.items[:1], body=[inner]); ast.copy_location(outer, s)
             return self.st_With(outer, st)
         cm = self.ev(s.items[0].context_expr, st)
+        if isinstance(cm, VOpt):
+            self.may_raise(st, 'AttributeError', s, cm.isnone, z3.Not(cm.isnone), 'with None')          # None has no __enter__
+            cm = cm.val
         if isinstance(cm, fsmodel.VFile):
             if s.items[0].optional_vars is not None: self.assign(s.items[0].optional_vars, cm, st)
             outs = []
